@@ -137,10 +137,12 @@ class ArgSoup(Stream):
 
 def match_finding(finding, failure):
     case = failure["case"]
-    if not isinstance(case, str):
-        return False
     fid = finding["id"]
     what = failure.get("what", "")
+    if fid == "F21":
+        return isinstance(case, list) and "ValueError" in what and "10**4" in str(case[1])
+    if not isinstance(case, str):
+        return False
     if fid == "F18":
         return ".call" in case and any(k in what for k in ("ValueError", "ImportError", "AttributeError", "TypeError", "ModuleNotFoundError"))
     return False
@@ -172,9 +174,31 @@ class OffRegionSoup(ParseSoup):
             yield "#phil __OFF__" + rng.choice(["\n", " \n", ""]) + "".join(rng.choice(self.FR) for _ in range(rng.randint(0, 8)))
 
 
+import c10  # noqa: E402
+
+
+class ConverterValues(c10.FromWords):
+    """value texts (incl. inf, nan, 1e999, huge integers, empty brackets, unbalanced parentheses, stray operators)
+    for every numeric/bool type through from_words / extract: correspondence as in C10, property = no exception other
+    than RuntimeError / Sorry escapes and the call returns."""
+    name = "converter_values"
+
+    def prop(self, case, o):
+        if o and o[0] == "err" and str(o[1]).startswith("other:"):
+            return "%s escaped for type %s on value text %r" % (o[1], case[0][0], case[1])
+        if o and o[0] in ("impl-timeout", "impl-exception"):
+            return "%s on value text %r" % (o, case[1])
+        return None
+
+    def in_domain(self, case):
+        # an EMPTY word list never reaches a converter from user input (the parser refuses a missing value,
+        # validate() substitutes the word None): raw-words mode on a blank text is outside C16's quantifier
+        return case[2] == "v" or case[1].strip() != ""
+
+
 SPEC = {
-    "clusters": ["Parse", "Tok"],
-    "streams": [ParseSoup, ArgSoup, OffRegionSoup, ScanNoCrash],
+    "clusters": ["Parse", "Tok", "Conv"],
+    "streams": [ParseSoup, ArgSoup, OffRegionSoup, ScanNoCrash, ConverterValues],
     "match_finding": match_finding,
     "rule": "PHIL-biased token soup and 1-2 mutations (delete/duplicate/transpose/truncate/insert) of generated documents into freephil.parse "
             "and into argument_interpreter.process_arg; observation = outcome class (ok / RuntimeError / Sorry / other:<Class>); the model's "
